@@ -152,7 +152,8 @@ class StatusChain:
             self.check_expr(fi, expr.left, at)
             self.check_expr(fi, expr.right, at)
             return
-        if isinstance(expr, (ast.Tuple, ast.Subscript, ast.Attribute, ast.Call, ast.Name)):
+        builtin_call = isinstance(expr, ast.Call) and isinstance(expr.func, ast.Name) and expr.func.id in ('len', 'sum', 'int', 'abs', 'max', 'min', 'hash', 'ord', 'round')
+        if isinstance(expr, (ast.Tuple, ast.Subscript, ast.Attribute, ast.Call, ast.Name)) and not builtin_call:
             rep.undecided(f'{fi.module.name}:{fi.qualname}: status value {norm(expr)[:60]}', fi.loc(at),
                           'the status travels inside a tuple / through a construct the status chain does not follow')
             return
@@ -1245,6 +1246,22 @@ def r105(ctx: Ctx) -> RuleReport:
             good = (p, False) in fx or (f'{p}isNone', True) in fx
             rep.add(f'{ind.fq}: without --indent the adaptive indentation (-1) is used', ind.loc(n), 'ok' if good else 'violation',
                     '' if good else f'-1 is chosen under {sorted(fx)[:2]}: a given --indent value is ignored')
+    pmi = ctx.repo.parent_map(ind.node)
+    for n in walk_local(ind.node):
+        if isinstance(n, ast.Expr) and isinstance(n.value, ast.Call) and norm(n.value.func) in ('sys.exit', 'parser.error', 'exit'):
+            par = pmi.get(id(n))
+            if isinstance(par, ast.If) and n in par.body:
+                ops_ = par.test.values if isinstance(par.test, ast.BoolOp) and isinstance(par.test.op, ast.Or) else [par.test]
+                for o_ in ops_:
+                    src_ = norm(o_).replace(' ', '')
+                    truthy = isinstance(o_, ast.UnaryOp) and isinstance(o_.op, ast.Not) and isinstance(o_.operand, ast.Name)
+                    zero = isinstance(o_, ast.Compare) and len(o_.ops) == 1 and isinstance(o_.ops[0], (ast.Eq, ast.LtE, ast.Lt)) and try_fold(o_.comparators[0])[0] \
+                        and isinstance(try_fold(o_.comparators[0])[1], int) and try_fold(o_.comparators[0])[1] >= (0 if isinstance(o_.ops[0], (ast.Eq, ast.LtE)) else 0) \
+                        and not src_.endswith('<-1')
+                    if truthy or zero:
+                        rep.violation(f'{ind.fq}: exactly the integers below -1 are rejected [usage error]', ind.loc(par),
+                                      f'the usage error is also raised when `{norm(o_)}` holds: that is true for the width 0 (one branch per line, no indentation), a documented value, '
+                                      f'so `--indent 0` stops with an error although the library accepts indent=0')
     exits = [n for n in walk_local(ind.node) if isinstance(n, ast.Call) and norm(n.func) in ('sys.exit', 'parser.error', 'exit')]
     hands = [n for n in walk_local(ind.node) if isinstance(n, ast.ExceptHandler)]
     if hands and not exits and not any(isinstance(x, ast.Raise) for h in hands for x in ast.walk(h)):
